@@ -15,8 +15,10 @@ out = ["### 12.4 Seeded changes (sub-agents given only a property's text and a s
        "each compiles, passes the repository's tests, and its demonstration fails only with the patch (confirmed with "
        "`tools/trymutant.sh`: patch applied to a scratch worktree of /repo HEAD, `go build`, `go test ./...`, demo both ways, "
        "then `VERIF_REPO=<worktree> bin/check <id>`). Kept under `seeded/<id>/<name>/` (patch.diff, demonstration, meta.json). "
-       "%d changes, %d detected by the property's quick check; where the first run missed a change the universe / oracle was "
-       "strengthened until it was caught, and the note says how." % (len(rows), sum(1 for r in rows if r[4] == "yes")),
+       "%d changes, %d detected by the property's quick check. Rounds 1 and 2 (names m*, r2m*): where the first run missed a change "
+       "the universe / oracle was strengthened until it was caught, and the note says how. Round 3 (names r3m*): strengthened as "
+       "far as the session allowed; rows marked NO are changes the property's quick check does NOT detect yet, with what they "
+       "would need." % (len(rows), sum(1 for r in rows if r[4] == "yes")),
        "", "| property | seeded change | what it needs to manifest | detected | how / what had to be strengthened |", "|---|---|---|---|---|"]
 for r in rows:
     out.append("| %s | %s: %s | %s | %s | %s |" % (r[0], r[1], r[2], r[3], r[4], r[5]))
